@@ -46,7 +46,7 @@ META = {
         "excluded and counted. distinct_nontrivial = distinct (expression shape, offset kind, due?) classes."
     ),
     "assumptions": [
-        "the wall clock is the scripted one (run.datetime patched harness-side)",
+        "the wall clock is the scripted one (run.datetime patched harness-side); shards run with the process' local zone (TZ) set to UTC, Asia/Tokyo or America/New_York and with naive now() at UTC or UTC+5:30: none of it may matter",
         "the system tzdata (zoneinfo) is the reference for zone offsets; random instants of the quantifier are sampling and not performed",
     ],
     "required_counters": ["due", "not_due", "zone_evals", "td_evals"],
@@ -70,7 +70,27 @@ def shards(tier: str, seed: int) -> List[Any]:
     return out
 
 
+def _set_process_tz(name: Any) -> None:
+    """The operating system's local zone (what naive datetimes mean to astimezone()/mktime)."""
+    import os
+    import time
+
+    if name is None:
+        os.environ.pop("TZ", None)
+    else:
+        os.environ["TZ"] = name
+    time.tzset()
+
+
 def run_shard(shard: Dict[str, Any]) -> Dict[str, Any]:
+    _set_process_tz([None, "Asia/Tokyo", "America/New_York"][shard["part"] % 3])
+    try:
+        return _run_shard(shard)
+    finally:
+        _set_process_tz(None)
+
+
+def _run_shard(shard: Dict[str, Any]) -> Dict[str, Any]:
     from zoneinfo import ZoneInfo
 
     import pytz
